@@ -186,6 +186,29 @@ class Interp:
                               env)
                 v = self.ev(st.value, env)
                 env[st.target.id] = self.binop(st.op, cur, v)
+            elif isinstance(st, ast.AugAssign) and isinstance(
+                    st.target, (ast.Subscript, ast.Attribute)):
+                import copy as _copy
+                load = _copy.copy(st.target)
+                load.ctx = ast.Load()
+                cur = self.ev(load, env)
+                v = self.ev(st.value, env)
+                self.assign(st.target, self.binop(st.op, cur, v), env)
+            elif isinstance(st, ast.Delete):
+                for t in st.targets:
+                    if isinstance(t, ast.Subscript):
+                        base = self.ev(t.value, env)
+                        key = self.ev(t.slice, env)
+                        if isinstance(base, (dict, list)):
+                            try:
+                                del base[key]
+                            except (KeyError, IndexError) as ex:
+                                raise _Raise(type(ex).__name__)
+                            continue
+                    elif isinstance(t, ast.Name) and t.id in env:
+                        del env[t.id]
+                        continue
+                    raise Unsupported('del')
             elif isinstance(st, ast.If):
                 self.block(st.body if self.truth(self.ev(st.test, env))
                            else st.orelse, env)
@@ -374,7 +397,11 @@ class Interp:
             if isinstance(tgt, model.FuncInfo):
                 return tgt
             if isinstance(tgt, tuple) and tgt[0] == 'const':
-                return self.spawn(tgt[1]).ev(tgt[2], {})
+                ck = (tgt[1].name, model.norm(tgt[2]), e.id)
+                cache = self.shared.setdefault('consts', {})
+                if ck not in cache:
+                    cache[ck] = self.spawn(tgt[1]).ev(tgt[2], {})
+                return cache[ck]
             if d:
                 return ('global', d)
             raise Unsupported('name ' + e.id)
@@ -457,6 +484,10 @@ class Interp:
                     if m is not None:
                         static = any(model.norm(d) == 'staticmethod'
                                      for d in m.node.decorator_list)
+                        if any(model.norm(d) in ('property',
+                                                 'functools.cached_property')
+                               for d in m.node.decorator_list):
+                            return self.invoke(('bound', m, base), [], {})
                         return ('bound', m, None if static else base)
                 raise Unsupported('attribute %s of %r' % (e.attr, base))
             if isinstance(base, tuple) and base and base[0] == 'global':
@@ -661,6 +692,29 @@ class Interp:
                                                    'values'):
                 r = getattr(base, attr)(*args)
                 return list(r) if attr != 'get' else r
+            if isinstance(base, dict) and attr in ('copy', 'pop', 'update',
+                                                   'setdefault', 'clear'):
+                try:
+                    if attr == 'update':
+                        for a in args:
+                            base.update(dict(a) if not isinstance(
+                                a, dict) else a)
+                        base.update(kwargs)
+                        return None
+                    return getattr(base, attr)(*args)
+                except KeyError:
+                    raise _Raise('KeyError')
+            if isinstance(base, list) and attr in ('copy', 'pop', 'insert',
+                                                   'index', 'count'):
+                try:
+                    return getattr(base, attr)(*args)
+                except (IndexError, ValueError) as ex:
+                    raise _Raise(type(ex).__name__)
+            if isinstance(base, tuple) and len(base) == 2 and base in (
+                    ('global', 'builtins.dict'), ('builtin', 'dict')) \
+                    and attr == 'fromkeys':
+                return dict.fromkeys(list(self.iterate(args[0])),
+                                     *args[1:])
             if isinstance(base, list) and attr in ('append', 'extend'):
                 getattr(base, attr)(*args)
                 return None
